@@ -9,6 +9,9 @@ pub struct TCell {
     /// colspan attribute as html2text reads it (unparsable => 1, clamped to 1000)
     pub colspan: usize,
     pub has_text: bool,
+    /// html2text's size estimate of the cell content when the harness can compute it exactly
+    /// (plain text content); None = unknown
+    pub size: Option<usize>,
 }
 
 #[derive(Clone, Debug, Default)]
@@ -16,6 +19,7 @@ pub struct Geo {
     /// per row: (start column, span) of each cell, in the remapped grid
     pub rows: Vec<Vec<(usize, usize)>>,
     pub has_text: Vec<Vec<bool>>,
+    pub sizes: Vec<Vec<Option<usize>>>,
     pub ncols: usize,
 }
 
@@ -58,36 +62,44 @@ pub fn geometry(sections: &[Vec<Vec<TCell>>]) -> Geo {
         let mut mapped = 0;
         let mut out = vec![];
         let mut txt = vec![];
+        let mut szs = vec![];
         for c in r {
             let next = pos + c.colspan.max(1);
             let nm = *map.get(&next).unwrap_or(&(mapped + 1));
             out.push((mapped, nm - mapped));
             txt.push(c.has_text);
+            szs.push(c.size);
             pos = next;
             mapped = nm;
         }
         geo.ncols = geo.ncols.max(mapped);
         geo.rows.push(out);
         geo.has_text.push(txt);
+        geo.sizes.push(szs);
     }
     geo
 }
 
 impl Geo {
-    /// columns that hold a non-empty span-1 cell in some row
+    /// Columns that certainly get a non-zero size estimate: a column is live if some cell covering
+    /// it has floor(size / span) >= 1, i.e. a non-empty span-1 cell, or a spanning cell whose
+    /// (exactly known) size estimate is at least its span.
     pub fn anchored_columns(&self) -> Vec<bool> {
         let mut v = vec![false; self.ncols];
-        for (r, t) in self.rows.iter().zip(self.has_text.iter()) {
-            for ((s, span), has) in r.iter().zip(t.iter()) {
-                if *span == 1 && *has && *s < v.len() {
-                    v[*s] = true;
+        for ((r, t), z) in self.rows.iter().zip(self.has_text.iter()).zip(self.sizes.iter()) {
+            for (((s, span), has), size) in r.iter().zip(t.iter()).zip(z.iter()) {
+                let live = if *span == 1 { *has } else { size.map(|x| x >= *span).unwrap_or(false) };
+                if live {
+                    for c in *s..(*s + *span).min(v.len()) {
+                        v[c] = true;
+                    }
                 }
             }
         }
         v
     }
-    /// A cell with text spanning >= 2 columns none of which is anchored: its per-column size
-    /// estimate may round down to 0 and the cell is then dropped (known finding KF-C03-starved-cell).
+    /// A cell with text spanning >= 2 columns none of which is live: its per-column size
+    /// estimate rounds down to 0 and the cell is dropped (known finding KF-C03-starved-cell).
     pub fn has_starved_risk(&self) -> bool {
         let a = self.anchored_columns();
         for (r, t) in self.rows.iter().zip(self.has_text.iter()) {
@@ -99,7 +111,7 @@ impl Geo {
         }
         false
     }
-    /// A spanning cell covers a column that is not anchored (zero-width column inside a span:
+    /// A spanning cell covers a column that is not live (zero-width column inside a span:
     /// known finding KF-C05-ragged).
     pub fn has_unanchored_under_span(&self) -> bool {
         let a = self.anchored_columns();
@@ -112,6 +124,31 @@ impl Geo {
         }
         false
     }
+}
+
+/// html2text's size estimate for cell content made of plain paragraphs / bare text runs only
+/// (text nodes: display width of the words plus one per inner space, plus one for leading
+/// whitespace); None when the content has anything else.
+pub fn simple_size(v: &[Block]) -> Option<usize> {
+    fn txt(t: &gen::Txt) -> usize {
+        let w: usize = t.words.iter().map(|n| (*n).max(1) as usize).sum::<usize>() * if t.cls == gen::Cls::W { 2 } else { 1 };
+        w + t.words.len().saturating_sub(1) + t.lead as usize
+    }
+    let mut total = 0;
+    for b in v {
+        match b {
+            Block::P(_, i) | Block::Inl(i) => {
+                for x in i {
+                    match x {
+                        Inline::Text(t) if !matches!(t.cls, gen::Cls::C | gen::Cls::M) => total += txt(t),
+                        _ => return None,
+                    }
+                }
+            }
+            _ => return None,
+        }
+    }
+    Some(total)
 }
 
 fn blocks_have_text(v: &[Block]) -> bool {
@@ -130,7 +167,7 @@ fn blocks_have_text(v: &[Block]) -> bool {
 
 pub fn geometry_of_ast(t: &gen::Table) -> Geo {
     let cells = |r: &gen::Row| -> Vec<TCell> {
-        r.cells.iter().map(|c| TCell { colspan: (c.colspan as usize).min(1000), has_text: blocks_have_text(&c.kids) }).collect()
+        r.cells.iter().map(|c| TCell { colspan: (c.colspan as usize).min(1000), has_text: blocks_have_text(&c.kids), size: simple_size(&c.kids) }).collect()
     };
     let n = t.rows.len();
     let head = t.head_rows.min(n);
@@ -171,7 +208,7 @@ pub fn geometry_of_dom(dom: &Arena, table: usize) -> Geo {
                     continue;
                 }
                 let colspan = dom.attr(td, "colspan").map(|v| v.parse::<usize>().unwrap_or(1).min(1000)).unwrap_or(1);
-                cells.push(TCell { colspan, has_text: dom.has_visible_text(td) });
+                cells.push(TCell { colspan, has_text: dom.has_visible_text(td), size: None });
             }
             rows.push(cells);
         }
